@@ -218,6 +218,16 @@ def rule_template(chk):
                detail_bad='the body of one_timestep is not exactly helper.get_timestep_code()', detail_ok='body = get_timestep_code()')
     chk.decide(M.arg_names(ots) == ['self', 't', 'dt'] and M.arg_names(st) == ['self', 't', 'dt'], 'timestep-pasted-verbatim', 'signature', node=ots,
                file=TPL, func='Integrator.one_timestep', detail_bad='signature %s' % M.arg_names(ots), detail_ok='(self, t, dt)')
+    rule_forwards(chk, cls)
+
+
+def rule_forwards(chk, cls=None):
+    """the compiled Integrator adds nothing of its own to compute_accelerations / update_domain: the request for a neighbour update reaches the Python integrator as given
+    (shared with C05: a compiled-side "already up to date" flag makes the result depend on the neighbour algorithm, the cache and the re-ordering frequency)"""
+    if cls is None:
+        tpl, top, lines, table, mod = template_shape()
+        cls = M.find_class(mod, 'Integrator')
+    meths = M.methods(cls)
     # compiled API forwards to the Python integrator
     for nm, want in (('compute_accelerations', 'self.integrator.compute_accelerations(index, update_nnps)'),
                      ('update_domain', 'self.integrator.update_domain()')):
